@@ -1091,3 +1091,34 @@ def g_mlayer_back_own(rng, level=0, n_random=150):
         else:
             ml.result = np.array([int(x) for x in rng.choice([1, -1], size=len(q))])
         yield {'self': ml, 'obj': st, 'measure_result': None}
+
+
+@gen(CI + 'CliffordGate.copy#generator')
+def g_gate_copy_gen(rng, level=0, n_random=80):
+    import pyclifford.circuit as ci
+    pa, _ = _pc()
+    for _ in range(n_random):
+        N = int(rng.integers(2, 5))
+        q = _local_qubits(rng, N)
+        g = ci.CliffordGate(*q)
+        g.generator = pa.Pauli(bits(rng, 2 * len(q)), int(rng.integers(0, 4)))
+        yield {'self': g}
+
+
+@gen(CI + 'CliffordGate.copy#maps')
+def g_gate_copy_maps(rng, level=0, n_random=80):
+    import pyclifford.circuit as ci
+    for _ in range(n_random):
+        N = int(rng.integers(2, 5))
+        q = _local_qubits(rng, N)
+        g = ci.CliffordGate(*q)
+        g.forward_map = _rand_map(rng, len(q))
+        g.backward_map = g.forward_map.inverse()
+        yield {'self': g}
+
+
+@gen(ST + 'StabilizerState.sample')
+def g_sample(rng, level=0, n_random=100):
+    for _ in range(n_random):
+        N = int(rng.integers(1, 5))
+        yield {'self': _rand_state(rng, N), 'L': int(rng.integers(0, 6))}
